@@ -122,12 +122,16 @@ type c12Ext struct {
 	mvals map[string]interface{}
 	types map[string]reflect.Type
 	calls int
+	flt   *c12R10Fault // round 10: the lookup objects of a world can be armed to fail at their k-th call (c12_r10.go)
 }
 
 var errC12Ext = errors.New("c12ext: not found")
 
 func (x *c12Ext) Get(n string) (reflect.Value, error) {
 	x.calls++
+	if x.flt != nil && x.flt.hit(x, false) {
+		return x.flt.getAnswer()
+	}
 	if v, ok := x.vals[n]; ok {
 		return v, nil
 	}
@@ -136,6 +140,9 @@ func (x *c12Ext) Get(n string) (reflect.Value, error) {
 
 func (x *c12Ext) Type(n string) (reflect.Type, error) {
 	x.calls++
+	if x.flt != nil && x.flt.hit(x, true) {
+		return x.flt.typeAnswer()
+	}
 	if t, ok := x.types[n]; ok {
 		return t, nil
 	}
@@ -278,6 +285,11 @@ type c12World struct {
 	sweeps     int
 	stmtCalls  int
 	churnCalls int
+
+	// round 10 (c12_r10.go)
+	flt         *c12R10Fault
+	faultOps    int
+	faultsFired int
 }
 
 func c12NewWorld(verbose bool) *c12World {
@@ -286,6 +298,7 @@ func c12NewWorld(verbose bool) *c12World {
 	for i := range w.exts {
 		w.exts[i] = &c12Ext{id: i, vals: map[string]reflect.Value{}, mvals: map[string]interface{}{}, types: map[string]reflect.Type{}}
 	}
+	w.r10Init()
 	return w
 }
 
@@ -591,6 +604,8 @@ func (w *c12World) exec(i int, op *c12Op) {
 	label := op.K   // the operation's part of a violation signature
 	if op.K == "Stmt" || op.K == "Churn" {
 		label = c12R7Label(op)
+	} else if op.K == "Fault" || op.K == "FaultType" {
+		label = c12R10Label(op)
 	}
 	resFail := func(class, detail string) {
 		w.fail(i, label+":"+class, call+": "+detail)
@@ -1189,6 +1204,13 @@ func (w *c12World) exec(i int, op *c12Op) {
 		// one script statement executed by vm.Execute on the addressed scope (c12_r7.go)
 		var fc, fd string
 		call, outcome, pan, expectFail, mutated, undo, fc, fd = w.execStmt(op, s)
+		if fc != "" && pan == nil {
+			resFail(fc, fd)
+		}
+	case "Fault", "FaultType":
+		// a lookup during which the lookup objects fail at their k-th call (c12_r10.go)
+		var fc, fd string
+		call, outcome, pan, expectFail, fc, fd = w.execFault(op, s)
 		if fc != "" && pan == nil {
 			resFail(fc, fd)
 		}
@@ -1904,14 +1926,14 @@ func init() {
 					"a sliding window of W live bindings, PRNG mixes of define/set/delete/delete-nearest/get/addr/String/path lookup with unbound deletes, Set storms on one binding whose nearest holder moves, type tables of up to 300 names, and 'churn' calls that create up to 1100 short-lived children, Copies or DeepCopies of the scope, " +
 					"write to each and drop it; Copy/DeepCopy snapshots are taken between and inside segments (the history may go on on the snapshot) and at the end, followed by a delete-nearest drain. In these histories the audit after every call also looks up, from every live scope, the name just addressed and two more names in rotation, " +
 					"and every name the history ever used on every 64th audit and right after each copy; the symbol lists of every scope are compared in full after every call as everywhere. " +
-					"A history is non-trivial when it performed >=2 state changes on >=2 scopes; distinct = distinct operation list." + c12R8Rule,
+					"A history is non-trivial when it performed >=2 state changes on >=2 scopes; distinct = distinct operation list." + c12R8Rule + c12R10Rule,
 				Assumptions: []string{
 					"values are compared by Go interface equality (pool: nil, int64, string, bool, float64, one pointer, *env.Env); reflect.Values handed to the API are always valid",
 					"a reflect.Value that reflect marks read-only (obtained through an unexported struct field) cannot be returned by Get, so binding one is taken to be an invalid request (error, state unchanged); when an external lookup answers one, the lookup of that name is the invalid request (error from Get/GetValue/Addr/a script use, state unchanged, no panic): the answer shadows the enclosing scopes like every other answer of a lookup object, falling through to them is not accepted; Set/DeleteGlobal of such a name are accepted both ways like for every name a nearer lookup object supplies; for path lookup the answer is a non-module",
 					"script spellings (a reading of the language, not of the statement): vm.Execute(scope, nil, src) runs the statements of src in that very scope; `var n = <literal>` is scope.Define(n, value of the literal) with integer literals int64 and 2.5 a float64; `delete(\"n\")` and `delete(\"n\", false)` are scope.Delete(n); `delete(\"n\", true)` is scope.DeleteGlobal(n); an expression using the name n looks n up from the scope (a function literal's body: from a fresh child of it). `n = v` is not used: its set-or-define meaning is not part of the statement. What `&n` points at is not compared, and `&n` failing on a bound name is accepted (as Addr's 'unaddressable')",
 					"long histories: a scope has no memory - the outcome of a call depends on the current content of the chain only, however many calls, bindings, removals, copies or children came before",
 					"external lookups are harness objects holding plain (undotted) names; they answer plain values and modules (existing scopes)",
-					c12R8Assumptions[0], c12R8Assumptions[1],
+					c12R8Assumptions[0], c12R8Assumptions[1], c12R10Assumptions[0],
 					"accepted both ways: Set/DeleteGlobal of a name an external lookup of a nearer scope supplies; path lookup whose nearest first-element binding is a non-module while an outer module exists, or whose first element an external lookup answers with a module (three readings of the first element: nearest binding / nearest table module / nearest module with lookups; one reading must explain a path, its one-element prefix and its two-element extensions in one state); later path elements that only the module's external lookup or parent chain could supply; Addr returning 'unaddressable'",
 				},
 				Phases: append([]fw.Phase{
@@ -1920,11 +1942,11 @@ func init() {
 					{Name: "random", Cases: nRand, Chunk: c12RandChunk(tier), TimeoutS: 900},
 					{Name: "paths", Cases: nPaths, Chunk: 4 * c12RandChunk(tier), Jobs: 4, MemMB: 3072, TimeoutS: 900},
 					{Name: "long", Cases: c12LongCases(tier), Chunk: c12LongChunk(tier), TimeoutS: 900},
-				}, c12R8Phases(tier)...), // volume, hot, stream: see c12_r8.go
+				}, append(c12R8Phases(tier), c12R10Phases(tier)...)...), // volume, hot, stream: see c12_r8.go; fault: see c12_r10.go
 			}
 		},
 		Run: func(c *wk.Case) {
-			if c12R8Run(c) {
+			if c12R8Run(c) || c12R10Run(c) {
 				return
 			}
 			switch c.Phase {
